@@ -67,6 +67,9 @@ def gen_model(r, *, budget=6000, max_T=4, force=None):
         n_dc = max(n_dc, 1)
     if "stoch" in force:
         n_ds = max(n_ds, 1)
+    if "stoch3" in force:
+        n_ds = 3
+        n_cs = min(n_cs, 1)
     names = NAMES[:]
     r.shuffle(names)
     names = iter(names)
@@ -84,6 +87,11 @@ def gen_model(r, *, budget=6000, max_T=4, force=None):
         for kind, n in (("ds", n_ds), ("dc", n_dc)):
             out[kind] = [disc_pool[i % len(disc_pool)] for i in range(n)]
             disc_pool = disc_pool[n:] + disc_pool[:n]
+        if "eqsize" in force:
+            # equal axis lengths: transposed or mis-paired axes do not raise shape errors but give wrong numbers
+            k = r.choice([2, 3])
+            out["ds"] = [k] * n_ds
+            out["dc"] = [k] * n_dc
         return out
 
     for _ in range(50):
@@ -140,12 +148,20 @@ def gen_model(r, *, budget=6000, max_T=4, force=None):
             e = ["add", e, ["mul", V(param), V(r.choice(vs)) if vs else N(1)]]
         return e
 
+    # ---- "flat" choices: a choice that does not enter utility (nor auxiliary functions) produces exact ties
+    flat = []
+    if "flatc" in force and cchoices:
+        flat.append(r.choice(cchoices))
+    if "flatd" in force and dchoices:
+        flat.append(r.choice(dchoices))
+    uvars = [v for v in allv if v not in flat]
+    meta["flat"] = flat
     # ---- auxiliary functions (chain), float-valued, may read _period and parameters
     aux = []
     n_aux = r.choice([0, 0, 1, 1, 2]) if "aux" not in force else r.choice([1, 2])
     for i in range(n_aux):
         nm = f"aux{i}"
-        aargs = r.sample(allv, k=min(len(allv), r.randint(1, 2)))
+        aargs = r.sample(uvars, k=min(len(uvars), r.randint(1, 2)))
         if aux and r.random() < 0.5:
             aargs.append(aux[-1])
         if r.random() < 0.4 and not noperiod:
@@ -155,12 +171,13 @@ def gen_model(r, *, budget=6000, max_T=4, force=None):
         funcs.append(_fn(nm, aargs + ([p] if p else []), lincomb(aargs, p)))
         aux.append(nm)
     # ---- utility: every state and choice enters (supported class), nonzero coefficients
-    uargs = allv + ([aux[-1]] if aux else []) + ([aux[0]] if len(aux) > 1 and r.random() < 0.5 else [])
+    uargs = uvars + ([aux[-1]] if aux else []) + ([aux[0]] if len(aux) > 1 and r.random() < 0.5 else [])
     if r.random() < 0.35 and not noperiod:
         uargs.append("_period")
     r.shuffle(uargs)
     p = "kappa" if (collide or r.random() < 0.6) else None
-    quad = r.choice(cchoices) if cchoices and r.random() < 0.6 else None
+    qc = [c for c in cchoices if c not in flat]
+    quad = r.choice(qc) if qc and r.random() < 0.6 else None
     funcs.append(_fn("utility", uargs + ([p] if p else []), lincomb(uargs, p, quad)))
 
     # ---- filters
@@ -248,7 +265,7 @@ def gen_model(r, *, budget=6000, max_T=4, force=None):
             funcs.append(_fn(f"next_{s}", args + ([pn] if pn else []), body))
         else:
             n = g["n"]
-            want_stoch = (("stoch" in force and not stoch) or r.random() < 0.35) and "nostoch" not in force
+            want_stoch = (("stoch" in force and not stoch) or "stoch3" in force or r.random() < 0.35) and "nostoch" not in force
             if want_stoch and s != filt_state_f1:
                 deps = r.sample(disc, k=min(len(disc), r.randint(1, 2)))
                 if r.random() < 0.4 and not noperiod:
@@ -304,6 +321,24 @@ def gen_model(r, *, budget=6000, max_T=4, force=None):
         r.shuffle(args)
         funcs.append(_fn(f"c{i}_constraint", args + ([pn] if pn else []), ["le", lhs, rhs], ints=False))
 
+    # ---- lower-bound constraints: `min(state-side, max of the choice grid) <= choice` (the maximal choice always passes;
+    #      together with an upper bound the admissible set may become empty -> the model reports the case as unsupported)
+    if cnames and ("lower" in force or r.random() < 0.15):
+        c = r.choice([x for x in flat if x in cchoices] or cchoices or dchoices)
+        if not any(c in f["args"] for f in funcs if f["name"].endswith("_constraint")):
+            cmax = max(grid_points(G[c]))
+            cmin = min(grid_points(G[c]))
+            if snames and r.random() < 0.6:
+                s_ = r.choice(snames)
+                lo = ["min", ["add", ["mul", N(Fr(1, 2)), V(s_)], N(cmin + r.choice([Fr(1, 2), 1, Fr(3, 2)]))], N(cmax)]
+                largs = [c, s_]
+            else:
+                pts = sorted(grid_points(G[c]))
+                lo = N(pts[min(len(pts) - 1, r.randint(1, 2))])
+                largs = [c]
+            r.shuffle(largs)
+            funcs.append(_fn("lower_constraint", largs, ["le", lo, V(c)]))
+            meta["lower_bound"] = True
     # ---- optionally a last-period-only constraint that leaves some states without feasible choice
     if cnames and snames and ("ninf" in force or r.random() < 0.12) and not noperiod:
         c = r.choice(cnames)
@@ -319,6 +354,11 @@ def gen_model(r, *, budget=6000, max_T=4, force=None):
         r.shuffle(cargs)
         funcs.append(_fn("last_constraint", cargs, body))
         meta["ninf_family"] = True
+    # a flat choice must still be an argument of utility or of a constraint: a choice that enters only transition
+    # functions and filters is accepted by lcm but fails in the last period (known finding K9)
+    for v in flat:
+        if not any(v in f["args"] for f in funcs if f["name"].endswith("_constraint")):
+            funcs.append(_fn(f"use_{v}_constraint", [v], ["le", N(min(grid_points(G[v]))), V(v)]))
     r.shuffle(funcs)
     mj = {"n_periods": T, "states": states, "choices": choices, "functions": funcs}
     meta.update(
